@@ -149,6 +149,19 @@ func c14Accesses(r *Run, rep *core.Report, reach map[*ssa.Function]bool) {
 				}
 				a := core.Addr(x.X)
 				if !r.M.IsSharedWord(a) {
+					// a by-value copy of a whole shared struct (a counter stripe, a bucket) reads all its words plainly
+					tn := core.NamedOf(x.Type())
+					if _, isStruct := x.Type().Underlying().(*types.Struct); !isStruct || tn == "" || !(tn == r.M.StripeType() || isBucketOwner(r, tn)) {
+						return
+					}
+					cons := fmt.Sprintf("%s plain copy of a whole %s", fn(f), tn)
+					if fi := unpublishedAt(r, f, x.X, in, 0); fi.OK {
+						emit(true, "C14.A2", cons+" (unpublished)", pos, "object not yet published", "")
+						return
+					}
+					ok, why := lockCovers(r, f, x.X, in, 0)
+					emit(ok, "C14.A2", cons, pos, "copied under the bucket lock of its own chain",
+						"a whole "+tn+" is copied by value (plain reads of every word in it) while other goroutines update those words atomically: the copy races with them, and an atomic operation applied to the copy afterwards synchronises nothing: "+why)
 					return
 				}
 				cons := fmt.Sprintf("%s plain read of %s", fn(f), a.Key())
@@ -322,7 +335,9 @@ func c14Settings(r *Run, rep *core.Report, reach map[*ssa.Function]bool) {
 					}
 				}
 				if isFuncTyped(ft) || typeName(ft) == "time.Duration" || typeName(ft) == "Duration" {
-					rep.Fail("C14.A5", n.Obj().Name()+"."+st.Field(j).Name()+" plain settings field", r.P.Pos(st.Field(j).Pos()), "a setting readable concurrently with its setter is kept in a plain field instead of a sync/atomic typed field")
+					// a plain field is fine as long as nothing writes it after construction (that is A3's verdict on every
+					// store to a field of the cache object); noted here so that the evidence shows it was seen
+					rep.Note("C14.A5: " + n.Obj().Name() + "." + st.Field(j).Name() + " is a plain (non-atomic) function / duration field: immutable after construction or reported by A3")
 				}
 			}
 		}
